@@ -221,7 +221,7 @@ def run_cbmc(job, gb, bdir, witness=False):
     cmd = ['cbmc', gb, '--unwind', str(job.unwind)] + CBMC_BASE + fl
     if job.unwindset:
         cmd += ['--unwindset', ','.join('%s:%d' % kv for kv in job.unwindset.items())]
-    if job.object_bits: cmd += ['--object-bits', str(job.object_bits)]
+    cmd += ['--object-bits', str(job.object_bits or 10)]
     if witness or job.no_checks:
         cmd += ['--no-standard-checks']
     else:
@@ -261,7 +261,7 @@ def compile_unit_obj(bdir, unit, defines, extra=()):
         ev['ev'].set()
     return ev['path']
 
-SAN = ['-fsanitize=address,undefined', '-fno-sanitize-recover=undefined', '-g']
+SAN = ['-fsanitize=address,undefined', '-fno-sanitize=vptr', '-fno-sanitize-recover=undefined', '-g']
 
 def build_concrete(job, bdir, built, sanitize=False):
     """g++ build of the harness + the real units + concrete vp runtime -> executable"""
@@ -319,7 +319,7 @@ def replay_on_real(job, bdir, built, values, path=None, sanitize=False):
         exe = build_concrete(job, bdir, built, sanitize)
     path = path or os.path.join(bdir, 'replay.txt')
     open(path, 'w').write('\n'.join(str(v) for v in values) + '\n')
-    env = dict(os.environ); env['VP_REPLAY_FILE'] = path; env.pop('VP_SEED', None)
+    env = dict(os.environ); env['VP_REPLAY_FILE'] = path; env.pop('VP_SEED', None); env['ASAN_OPTIONS'] = 'detect_leaks=0'
     rc, out, w, _ = sh([exe], env=env, timeout=120)
     return rc, out
 
